@@ -7,11 +7,19 @@ impl<'a> TextRef<'a> {
         self.words.is_empty()
     }
 }
+// exact specification of the filter
+pub open spec fn hm_spec(query: &TextRef, hit: &Hit) -> bool {
+    if query.words@.len() == 0 { true } else if hit.rmatches@.len() == 0 { false }
+    else if hit.rmatches@.len() == 1 && hit.qmatches@.len() == 1 && query.words@.len() > 1 {
+        let rm = hit.rmatches@[0]; let qm = hit.qmatches@[0];
+        !(!rm.fin && (qm.slice.1 - qm.slice.0) * 2 < rm.slice.1 - rm.slice.0)
+    } else { true }
+}
 // @item rust/core/src/search/filter.rs :: fn hit_matches
 pub fn hit_matches(query: &TextRef, hit: &Hit) -> (ret: bool)
     requires forall|k: int| 0 <= k < hit.rmatches@.len() ==> (#[trigger] hit.rmatches@[k]).slice.0 <= hit.rmatches@[k].slice.1,
         forall|k: int| 0 <= k < hit.qmatches@.len() ==> (#[trigger] hit.qmatches@[k]).slice.0 <= hit.qmatches@[k].slice.1 <= 0x4000_0000,
-    ensures
+    ensures ret == hm_spec(query, hit), // [C06 C09 C12 C13]
         // C12: a query without words always passes
         query.words@.len() == 0 ==> ret, // [C12]
         // C09: a hit for a query with words has at least one match (hence one highlighted span)
